@@ -63,7 +63,8 @@ def gen_doc1(rp):
         if e.tag == "send" and "event" in e.attrs and rp.random() < 0.3:
             name = e.attrs.pop("event")
             if rp.random() < 0.6:
-                e.attrs["eventexpr"] = "'%s'" % name if dm == "null" else rp.choice(["'%s'" % name, "v0", "1"])
+                has_v0 = any(d.tag == "data" and d.attrs.get("id") == "v0" for d in root.walk())
+                e.attrs["eventexpr"] = "'%s'" % name if dm == "null" else rp.choice(["'%s'" % name, "v0" if has_v0 else "2", "1"])
     states = [e for e in root.walk() if e.tag == "state"]
     for n in range(rp.randint(0, 3)):
         if not states:
